@@ -38,6 +38,10 @@ pub enum Case {
     CrcSweep { pages: u32, first: u32, step: u32 },
     /// a plain XYZ file of exactly `n` points (the end of the point data lands at a chosen offset within a page)
     XyzCount { n: u32 },
+    /// like XyzCount, with a largest z coordinate whose decimal spelling has 5 + `pad` characters: together with `n`
+    /// the end of the XML section lands at (nearly) every offset within a page
+    #[serde(rename = "XyzXmlEnd")]
+    XyzXmlEnd { n: u32, pad: u8 },
 }
 
 fn run_crc_sweep(pages: u32, first: u32, step: u32, v: &mut Verdict) -> Result<(), String> {
@@ -190,6 +194,20 @@ fn run_xyz(lines: &[Line], crlf: bool, v: &mut Verdict) -> Result<(), String> {
         return Err(format!("e57-from-xyz failed on a well-formed XYZ file: {}", String::from_utf8_lossy(&o.stderr)));
     }
     let e57 = sc.0.join("in.xyz.e57");
+    // where the XML section ends within its page (from the file header; classification only)
+    if let Ok(b) = std::fs::read(&e57) {
+        if b.len() >= 48 {
+            let off = u64::from_le_bytes(b[24..32].try_into().unwrap());
+            let len = u64::from_le_bytes(b[32..40].try_into().unwrap());
+            let log_end = off / 1024 * 1020 + off % 1024 + len;
+            match log_end % 1020 {
+                0 => v.nt("xml_ends_with_the_payload_of_a_page"),
+                1..=3 => v.nt("xml_ends_within_3_bytes_behind_a_page_boundary"),
+                1017..=1019 => v.nt("xml_ends_within_3_bytes_before_a_page_boundary"),
+                _ => {}
+            }
+        }
+    }
     let o = Command::new(tool("e57-to-xyz")).arg(&e57).output().map_err(|e| format!("infra: cannot run e57-to-xyz: {e}"))?;
     if !o.status.success() {
         return Err(format!("e57-to-xyz failed on the converter's own output: {}", String::from_utf8_lossy(&o.stderr)));
@@ -361,10 +379,16 @@ impl Check for C20 {
                 out.push(Case::XyzCount { n: base + k });
             }
         }
+        // the same for the end of the XML section: 15 consecutive lengths of one number in the XML x 68 consecutive n
+        for pad in 0..15u8 {
+            for k in 0..68 {
+                out.push(Case::XyzXmlEnd { n: 60 + k, pad });
+            }
+        }
         out
     }
     fn describe_fixed(_t: Tier) -> Option<String> {
-        Some("one file with all 256 values in each colour channel; one file with 9000 points (more than one data packet); e57-check-crc on a 300-page file with every page damaged in turn and on a 1100-page file at the multiples of 255 and 256; XYZ files of n points for 3 x 68 consecutive n (end of the point data at every offset within a page, 1 to 3 data packets)".into())
+        Some("one file with all 256 values in each colour channel; one file with 9000 points (more than one data packet); e57-check-crc on a 300-page file with every page damaged in turn and on a 1100-page file at the multiples of 255 and 256; XYZ files of n points for 3 x 68 consecutive n (end of the point data at every offset within a page, 1 to 3 data packets); 15 x 68 XYZ files whose point count and longest number move the end of the XML section over every offset within a page".into())
     }
     fn gen(s: &mut Src, _t: Tier) -> Case {
         if s.chance(1, 10) {
@@ -430,6 +454,15 @@ impl Check for C20 {
                 let lines: Vec<Line> = (0..*n)
                     .map(|i| Line { xyz: [format!("{}", i as f32 * 0.5), format!("{}", -(i as f32) * 0.25), format!("{}", (i % 97) as f32)], rgb: [(i % 256) as u8, (i / 3 % 256) as u8, (i / 11 % 256) as u8], extra: vec![], keep: 6 })
                     .collect();
+                run_xyz(&lines, false, &mut v)
+            }
+            Case::XyzXmlEnd { n, pad } => {
+                v.nt("xml_end_sweep");
+                let mut lines: Vec<Line> = (0..*n)
+                    .map(|i| Line { xyz: [format!("{}", i as f32 * 0.5), format!("{}", -(i as f32) * 0.25), format!("{}", (i % 97) as f32)], rgb: [(i % 256) as u8, (i / 3 % 256) as u8, (i / 11 % 256) as u8], extra: vec![], keep: 6 })
+                    .collect();
+                // 100.5, 100.25, 100.125, ...: exact in 32 bits, one more decimal each
+                lines[0].xyz[2] = format!("{}", 100.0f32 + 0.5f32.powi(*pad as i32 + 1));
                 run_xyz(&lines, false, &mut v)
             }
             Case::E57 { program, damage } => {
